@@ -166,6 +166,11 @@ func step(c *clusterh.Cluster, shards *[]uint64, st *runState, f []string) (res 
 		}
 		st.hasData[(*shards)[idx]] = true
 		return "ok"
+	case "trunc":
+		// influxd-ctl truncate-shards: the groups reaching beyond t stop taking new points at t;
+		// what they hold stays where it is and has to be read
+		c.Truncate(i64(f[1]))
+		return "ok"
 	case "down":
 		i := int(i64(f[1]))
 		if i < 0 || i >= len(c.Nodes) {
@@ -317,6 +322,11 @@ func genCase(r *fw.Rand) fw.Case {
 		for w := 0; w < 1+r.Intn(2); w++ {
 			ops = append(ops, fmt.Sprintf("data %d %d %d %d %d", i, 1+r.Intn(12), lo+int64(i)+int64(r.Intn(5))*100, 100*(1+int64(r.Intn(3)))*10, r.Intn(1000)-300))
 		}
+	}
+	if r.Intn(3) == 0 {
+		// the shard groups are truncated somewhere in the range written (every group after
+		// that instant at its start)
+		ops = append(ops, fmt.Sprintf("trunc %d", base+int64(r.Intn(ngroups))*groupLen+int64(r.Intn(4))*100))
 	}
 	query := func() {
 		c := r.Intn(n)
